@@ -3,6 +3,7 @@ CONSTANTS
   Tree = "T1"
   EnvFull = TRUE
   AoptFull = TRUE
+  WithDcf = TRUE
   Emit = TRUE
 INVARIANT AlgIsSelect
 INVARIANT OneSectionPerLevel
